@@ -1,13 +1,27 @@
 #!/bin/sh
-# apply a seeded change to /repo, run the given checks (quick tier), undo it straight afterwards
+# run checks (quick tier) against a seeded change and undo it straight afterwards.
+# default: a scratch worktree of /repo under /var/tmp with the patch applied, checks pointed at it through LX_REPO
+#          (so that /repo itself stays clean and other runs are not disturbed);
+# APPLY_IN_REPO=1: the literal procedure - git -C /repo apply, run, git -C /repo checkout -- .
 # usage: try_seed.sh <seed-name> <pid> [<pid> ...]
 NAME="$1"; shift
-cd /repo || exit 2
-git diff --quiet || { echo "/repo has local changes; refusing"; exit 2; }
-git apply /verif/seeded/$NAME/patch.diff || { echo "patch does not apply"; exit 2; }
+PATCH=/verif/seeded/$NAME/patch.diff
+[ -f "$PATCH" ] || { echo "seed=$NAME has no patch for the current tree"; exit 2; }
+if [ -n "$APPLY_IN_REPO" ]; then
+  cd /repo || exit 2
+  git diff --quiet || { echo "/repo has local changes; refusing"; exit 2; }
+  git apply "$PATCH" || { echo "patch does not apply"; exit 2; }
+  ROOT=/repo
+else
+  ROOT=/var/tmp/lxseed-$NAME-$$
+  git -C /repo worktree add -q --detach "$ROOT" HEAD || exit 2
+  git -C "$ROOT" apply "$PATCH" || { echo "patch does not apply"; git -C /repo worktree remove --force "$ROOT"; exit 2; }
+fi
 for P in "$@"; do
-  /verif/vcheck $P --tier ${TIER:-quick} > /tmp/try_$NAME_$P.log 2>&1; RC=$?
-  echo "seed=$NAME check=$P rc=$RC $(grep -c '^VIOLATION' /tmp/try_$NAME_$P.log) violation line(s); $(grep -c '^HARNESS' /tmp/try_$NAME_$P.log) harness line(s)"
-  grep -m2 '^VIOLATION\|^HARNESS' /tmp/try_$NAME_$P.log | cut -c1-400
+  LOG=/var/tmp/try_${NAME}_$P.log
+  LX_REPO=$ROOT /verif/vcheck $P --tier ${TIER:-quick} > $LOG 2>&1; RC=$?
+  echo "seed=$NAME check=$P rc=$RC $(grep -c '^VIOLATION' $LOG) violation line(s); $(grep -c '^HARNESS' $LOG) harness line(s)"
+  grep -m2 '^VIOLATION\|^HARNESS' $LOG | cut -c1-300
+  rm -f $LOG
 done
-git -C /repo checkout -- .
+if [ -n "$APPLY_IN_REPO" ]; then git -C /repo checkout -- .; else git -C /repo worktree remove --force "$ROOT"; fi
